@@ -139,6 +139,9 @@ func c03integrity(c *fw.Ctx, t *c03trie) string {
 	return ""
 }
 
+// every path a block history hands to a trie lives in one re-used buffer (single goroutine): the next call overwrites it
+var c03path lab.Scratch
+
 func runC03(c *fw.Ctx) {
 	r := c.Rng
 	g := lab.NewPathGen(r)
@@ -299,7 +302,7 @@ func runC03(c *fw.Ctx) {
 				// must still take inserts)
 				for _, p := range lab.SortedKeys(t.model) {
 					c.Tracef("%s del %q", t.name, p)
-					if _, err := t.t.Delete(util.Path(p)); err != nil {
+					if _, err := t.t.Delete(c03path.P(p)); err != nil {
 						fail("%s: Delete(%q) of a path visible to the child failed: %v", t.name, p, err)
 						return
 					}
@@ -318,7 +321,7 @@ func runC03(c *fw.Ctx) {
 					if !present {
 						own = c03observe(t)
 					}
-					_, err := t.t.Delete(util.Path(p))
+					_, err := t.t.Delete(c03path.P(p))
 					if present && err != nil {
 						fail("%s: Delete(%q) of a path visible to the child failed: %v", t.name, p, err)
 						return
@@ -347,7 +350,7 @@ func runC03(c *fw.Ctx) {
 					}
 					valueHistory[p] = append(valueHistory[p], v)
 					c.Tracef("%s ins %q=%q", t.name, p, v)
-					if _, err := t.t.Insert(util.Path(p), &lab.Val{B: v}); err != nil {
+					if _, err := t.t.Insert(c03path.P(p), &lab.Val{B: v}); err != nil {
 						fail("%s: Insert(%q) failed: %v", t.name, p, err)
 						return
 					}
@@ -373,7 +376,7 @@ func runC03(c *fw.Ctx) {
 			v := lab.GenValue(r, step)
 			c.Tracef("P ins %q=%q", p, v)
 			rootBefore := append([]byte(nil), P.t.GetRoot()...)
-			if _, err := P.t.Insert(util.Path(p), &lab.Val{B: v}); err != nil {
+			if _, err := P.t.Insert(c03path.P(p), &lab.Val{B: v}); err != nil {
 				fail("P: Insert failed: %v", err)
 				return
 			}
